@@ -2,7 +2,7 @@
 PROP = 'C13'
 LEAN_MODULES = ['FalconModel.Multipart', 'FalconModel.PeekProofs', 'FalconModel.MultipartProofs', 'FalconModel.ReaderPublic',
                 'FalconModel.MultipartFlat', 'FalconModel.MultipartFlatProofs', 'FalconModel.ReaderMap', 'FalconModel.MultipartBridge',
-                'FalconModel.MultipartAsync', 'FalconModel.MultipartAsyncProofs', 'FalconModel.MultipartAsyncReaderProofs']
+                'FalconModel.MultipartAsync', 'FalconModel.MultipartAsyncProofs', 'FalconModel.MultipartAsyncReaderProofs', 'FalconModel.MediaType']
 DRIVERS = ['mpdriver', 'madriver']
 THEOREMS = [
     # ---- cursor level (FalconModel/MultipartFlat.lean: reference encoder Mf.encodeForm, flat parser Mf.next / parseAll / parseFlat;
@@ -122,10 +122,14 @@ TRUSTED = [
     'the reference multipart encoder and the flat-buffer reference splitter in harness/props/c13.py (written from RFC 7578 / RFC 2046 5.1.1 and the property statement, bytes.find over one bytes object, no buffering)',
     'SIGPROF after 3 CPU-seconds (wall-clock backstop 90 s) / asyncio.wait_for(30 s) deciding "did not return" for the implementation side',
     'CPython json / urllib for the expected value of get_media() on application/json and urlencoded parts',
+    'the reference writer of header parameters (_enc_params/_qstr: RFC 9110 5.6.4 quoted-string with quoted-pairs for DQUOTE and backslash only, RFC 9110 5.6.6 parameters, bare tokens, any attribute-name case, optional blanks around ";") and CPython bytes.decode(charset) for the expected value of get_text() (the documented contract of get_text)',
 ]
 ASSUMPTIONS = [
     'Lean side of the bridge: chunk size >= len(CRLF--boundary) and >= 4 (Mf.next_refines_flat hypothesis hc); max_body_part_headers_size >= 0 or -1; the application\'s behaviour on a part stream is a (for the given body fixed) list of public reader operations with valid arguments (sizes None/-1/>= 0, delimiters non-empty and <= chunk size); get_data/get_text/get_media (BodyPart accessors, max_body_part_buffer_size) are not operations of the reader model',
-    'reference forms are boundary-safe: CRLF--boundary occurs nowhere in CRLF+content, the preamble does not contain --boundary and ends with CRLF, names/filenames contain no double quote, backslash, CR or LF',
+    'reference forms are boundary-safe: CRLF--boundary occurs nowhere in CRLF+content, the preamble does not contain --boundary and ends with CRLF; names/filenames contain no CR or LF (a header line cannot carry them); in sections (b)/(c) they contain no double quote or backslash, in section (d) they range over every printable ASCII character (quote and backslash written as quoted-pairs), HTAB and some non-ASCII letters',
+    'KNOWN FINDING F46 (recorded for C11 in known_findings.json; root cause _parse_param_old_stdlib of falcon/util/mediatypes.py, which C13 reaches through BodyPart.name/filename/get_text): a QUOTED parameter value ENDING in an escaped backslash that is FOLLOWED by another parameter swallows the following parameters on the unchanged tree (name="x\\\\"; filename="y" gives name x\\"; filename="y and no filename). Exactly that class (decided by the encoder: quoted value ends in a backslash and is not the last parameter) is generated but judged under its own oracle name, which demands the part count, order, content type, contents, outcome and WSGI/ASGI agreement but NOT the value of name/filename (a str, None or the parse error is accepted). The same value as the LAST parameter is parsed correctly by the unchanged tree and is judged strictly. A strict judgement of the class needs a C13 entry for F46 in known_findings.json',
+    'section (e): get_media() on a part may also raise the HTTP errors of the part media handlers - HTTPUnsupportedMediaType (415: no handler for the declared type) and MediaMalformedError (400: the content is not a document of the declared type); these are accepted there besides a value and the multipart parse error. get_text()/get_data()/name/filename/content_type may only give a value or MultipartParseError. The expected text of get_text() is bytes.decode(charset) as documented (the charset must be supported by bytes.decode), MultipartParseError when that raises anything; with a duplicated charset parameter or a near-miss media type (TEXT/PLAIN, blanks) any str/None/MultipartParseError is accepted',
+    'the parse_header correspondence feeds ASCII header values only (str.strip()/str.lower() on non-ASCII text are outside the Mt model); non-ASCII names are covered by the oracle',
     'reader chunk sizes are >= len(CRLF--boundary) (always true for the default 32 KiB / 8 KiB and boundaries <= 70 bytes); smaller chunk sizes are exercised only in the correspondence, where next() raises ValueError on both sides',
     'the async parser: Ma.next is the transcription of falcon/asgi/multipart.py _iterate_parts over a reader interface (Ma.Ops); async_refines_flat, sync_async_agree and the async limit theorems hold for every reader that satisfies the flat-cursor laws Ma.Lawful (explicit structure fields; proved for the sync reader model, for the cursor itself, and - arLawful - for the transcription Ma.AR of falcon/asgi/reader.py over any lawful chunk source incl. delimit as a nested reader over parent._iter_delimited); Ma.next over Ma.AR is tied to the real async parser by the madriver correspondence (headers, bytes, error kinds, tell()/eof of the part stream, tell() of the parent)',
     'async side of the theorems: chunk size >= len(CRLF--boundary) and >= 4; application behaviour on a part stream is a list of read/readall/peek/read_until/pipe_until/pipe/exhaust/async-for operations with valid arguments (a second async for on the same stream raises OperationNotAllowed in the code and is not an operation of the model); get_data is modelled (Ma.getData), get_text/get_media are get_data/read + exhaust followed by decoding and are carried by the oracle',
@@ -138,6 +142,10 @@ RULE = ('(a1) async model correspondence (madriver): messy / reference-encoded /
         'x per-part consumption script (skip, peek, partial read, read loop, full read, get_data/data, get_text/text, get_media/media, read_until, readline|async-iteration, pipe, exhaust) x limits at size-1/size/size+1 '
         'x entry point (handler.deserialize[_async] on a raw stream / BufferedReader / BoundedStream, Request.get_media, full App call); '
         '(c) random single/double edits (delete, substitute, insert, truncate - also by Content-Length only) of valid bodies, plus for small bodies every single-byte deletion, every truncation and every substitution by each of CR LF - : ; space " = NUL 0xff 0xc3 A * (3 of them per position in quick), judged by a flat-buffer reference splitter; '
+        '(d) characters of names and filenames: EXHAUSTIVELY every 1-character string over printable ASCII + HTAB + the empty string, every 2-character string over the 20-symbol alphabet {" \\ ; = , * \' % space a z N 0 . - / : ( & e-acute}, every pair special x printable ASCII in both orders (2207 strings per run, sharded), every 3-character string over the alphabet in the thorough tier (2400 sampled in quick), plus random strings of 2-8 fragments (\";  \\\"  name=  filename*=  UTF-8\'\'  %22 ...) or 4-24 characters; each string is placed as name (only / last / first parameter) and as filename (last / first), beside a second value from a list with its own specials, written as quoted-string (a token sometimes bare, so the fast path of parse_header is taken too), attribute names in any case, blanks/HTAB around the semicolons, 20% an extra parameter anywhere, form-data in any case; 1-6 such parts per form x random boundary/chunking/consumption script/entry point as in (b); judged for exact name, filename, content type, content (class F46 under its own oracle, see ASSUMPTIONS); '
+        '(e) parameter values handed to library functions: forms of 1-3 parts whose Content-Type is text/plain with a charset that is valid (11 spellings) or odd (one NUL/control/DEL/blank/quote/backslash/;/=/%/non-ASCII character inserted into, substituted in, put before or after a valid name; the character alone; empty; unknown; non-text codecs hex/rot13/base64/undefined/idna/punycode/unicode_escape/utf-7/mbcs; 30..7900 characters, also across the header-size limit), quoted when needed, in any position among 0-2 other parameters; json/urlencoded parts with well-formed parameters (strict get_media value) or odd parameters/suffixes (;; =  q=\"  NUL  2500-character parameter lists); odd media types (empty, blank, /, a/b/c, */*, NUL inside, 3000 characters, TEXT/PLAIN, duplicated charset); 30% a filename* whose charset/language are valid or odd; consumed 50% by get_text/.text, 20% get_media/.media, 15% get_data/.data, rest stream reads, on both stacks and all entry points; '
+        'plus for one small valid form per shard EVERY position of every parameter value (name, filename/filename*, both charsets, incl. the = and the byte after the value) x byte values {0x00-0x20, \" % \' * ; = A \\ DEL 0x80 0xC3 0xE9 0xFF} (all 256 in the thorough tier) as substitution and (charset values; everywhere in thorough) insertion, read by get_text/.text (70%), get_media, get_data, judged by the flat-buffer splitter; '
+        '(f) correspondence parse_header = Mt.parseHeader on ASCII Content-Disposition values from the sweep, Content-Type values with odd charsets and junk over {\" \\ ; = blank HTAB NUL 0x1C ,}; '
         'non-trivial = at least one part was yielded or a parse error was raised; distinct = distinct (body, boundary, options, script, chunking, path)')
 PARTIAL = ('Proved in Lean: parse_encode (with decided necessity witnesses), parseAll_encode with biting limits, headers_size_limit_exact, part_count_limit_exact (arbitrary and encoded bodies), '
            'parser_terminates, invalid_is_parse_error_only on the flat parser Mf; the full bridge next_refines_flat (Mp.next over the buffered reader = Mf on the text, every lawful source/chunking, '
@@ -148,8 +156,8 @@ PARTIAL = ('Proved in Lean: parse_encode (with decided necessity witnesses), par
            'reader over parent._iter_delimited (own buffer, own _iter_normalized), satisfies the laws - hence async_concrete_refines_flat, sync_async_agree_concrete, async_concrete_parse_encode, '
            'async_concrete_error_only, async_chunking_independent for EVERY list of transport pieces; BodyPart.get_data (same body on both stacks): '
            'async_buffer_limit_exact, buffer_limit_every_call, tooLarge_sticky (repair 913e041, F39) with the pinned regression witness. '
-           'NOT proved in Lean: (1) get_text/get_media decoding, parse_header / RFC 5987 decoding of name/filename, content_type, secure_filename and the mapping '
-           'DelimiterError -> MultipartParseError are outside the models and are carried by the oracle only; (2) the bridges need chunk size >= len(CRLF--boundary) (below it next() raises ValueError: correspondence only) '
+           'NOT proved in Lean: (1) get_text/get_media decoding, RFC 5987 decoding of filename*, content_type, secure_filename and the mapping '
+           'DelimiterError -> MultipartParseError are outside the models and are carried by the oracle only; parse_header (which name/filename/get_text go through) is MODELLED (Mt.parseHeader, the C11 model, tied here by its own correspondence on Content-Disposition/Content-Type values) but the round trip parse_header(quoted-string(v)) = v for values not in class F46 is not proved - it is decided by the exhaustive pair/triple sweep of the oracle; (2) the bridges need chunk size >= len(CRLF--boundary) (below it next() raises ValueError: correspondence only) '
            'and max_body_part_headers_size >= 0 or -1; (3) application behaviour is a list of reader operations fixed per body (an adaptive application performs some such list on each body, so this loses nothing for a given run); '
            'on the async side a second `async for` over the same stream (OperationNotAllowed) and tell()/eof are not part of the theorems (tell()/eof are compared in the correspondence). '
            'Mp.next = the real sync parser, Ma.next over Ma.AR = the real async parser and Mf.parseAll = the real sync/async parsers are correspondences (differential), not proofs about Python.')
@@ -167,6 +175,8 @@ def run(ctx):
     # (the newer sections come last so that the random streams of the older ones are what they were)
     _acorr(ctx)
     _buffer_oracle(ctx)
+    _oracle(ctx, section='headers')
+    _ph_corr(ctx)
 
 
 def _example(ctx):
@@ -822,6 +832,52 @@ def _boundary(rnd):
     return b
 
 
+# ---- header parameters (RFC 9110 5.6.6: *( OWS ";" OWS name "=" ( token / quoted-string ) ); quoted-string per 5.6.4)
+
+_TCHAR = set("!#$%&'*+-.^_`|~abcdefghijklmnopqrstuvwxyzABCDEFGHIJKLMNOPQRSTUVWXYZ0123456789")
+_SPECIALS = '"\\;=,*\'% '
+_ALPHA20 = list(_SPECIALS) + list('azN0.-/:(&') + ['\u00e9']      # the 20-symbol alphabet of the exhaustive pair / triple sweeps
+_PRINTABLE = [chr(c) for c in range(0x20, 0x7f)]
+_FRAGS = ['";', '\\"', '\\', '"', ';', '; ', 'name=', 'filename=', 'filename*=', "UTF-8''", '%22', '%5C', '%', ' ', '=', ',', '*', "'", 'a', 'bc', 'N', '\u00e9', '\u20ac',
+          'form-data', 'x.txt', '/', '..', '\t', '""', '\\\\', '="', '";name="', 'is_admin', '\\";', '";"', ';"']
+
+
+def _qstr(v):
+    """quoted-string = DQUOTE *( qdtext / quoted-pair ) DQUOTE; only DQUOTE and backslash need the quoted-pair"""
+    return '"' + v.replace('\\', '\\\\').replace('"', '\\"') + '"'
+
+
+def _is_token(v):
+    return v != '' and all(c in _TCHAR for c in v)
+
+
+def _enc_params(rnd, first, params, quote_all=False):
+    """-> (header value, in_f46_class): values are written as quoted-strings, a token sometimes bare; attribute names in any case;
+    optional blanks around the semicolons. in_f46_class: a quoted value ending in an escaped backslash is followed by another
+    parameter (known finding F46 of C11: the splitter takes that closing quote for an escaped one)."""
+    out = first; f46 = False
+    for i, (attr, val) in enumerate(params):
+        quoted = quote_all or not (_is_token(val) and rnd.random() < 0.25)
+        if quoted and val.endswith('\\') and i < len(params) - 1: f46 = True
+        attr = rnd.choice([attr, attr, attr, attr.upper(), attr.capitalize()])
+        out += rnd.choice(['; ', '; ', '; ', ';', ' ; ', ';\t']) + attr + '=' + (_qstr(val) if quoted else val)
+    return out, f46
+
+
+def _swept_strings():
+    """the deterministic part of the name/filename sweep: [(string, class)]"""
+    out = [(s, 'single') for s in _PRINTABLE + ['\t', '']]
+    out += [(a + c, 'pair') for a in _ALPHA20 for c in _ALPHA20]
+    out += [(a + c, 'special_x_printable') for a in _SPECIALS for c in _PRINTABLE] + [(c + a, 'special_x_printable') for a in _SPECIALS for c in _PRINTABLE]
+    return out
+
+
+def _long_string(rnd):
+    if rnd.random() < 0.5:
+        return ''.join(rnd.choice(_FRAGS) for _ in range(rnd.randint(2, 8)))
+    return ''.join(rnd.choice(_ALPHA20 if rnd.random() < 0.7 else _PRINTABLE) for _ in range(rnd.randint(4, 24)))
+
+
 def _content_type_header(rnd, b):
     """the request's Content-Type for boundary b: quoted when it holds non-token characters; a quoted value may carry
     trailing blanks, which RFC 2046 5.1.1 says were added by a gateway and must be deleted"""
@@ -937,6 +993,13 @@ def _ref_split(body, b, maxhdr, maxcount):
 _ANYHDR = '<str|None|MPE>'
 
 
+class _Any:
+    def __repr__(self): return '<any str|None|MPE>'
+
+
+_ANY = _Any()   # expected name/filename of a part that is not judged for equality (known class F46)
+
+
 def _expect_obs(how, arg, data, ct, charset, obj, buf):
     """what one consumption step must observe on a part whose content is `data`"""
     if how in ('skip', 'exhaust'):
@@ -961,7 +1024,7 @@ def _expect_obs(how, arg, data, ct, charset, obj, buf):
         except UnicodeDecodeError:
             return ('MPE',)
     if how in ('get_media', 'media_prop'):
-        return ('media', obj)
+        return ('media', obj) if ct is not None else ('media-loose',)
     if how == 'read_until':
         i = data.find(arg); a = data if i < 0 else data[:i]
         return ('split', a, data[len(a):])
@@ -1022,7 +1085,7 @@ class _WsgiInput:
         self.p[0] = c[n:]; return c[:n]
 
 
-def _oracle(ctx):
+def _oracle(ctx, section='main'):
     import asyncio
     import io
     from runner import Hang
@@ -1082,6 +1145,12 @@ def _oracle(ctx):
                 dst = io.BytesIO(); s.pipe(dst); return ('bytes', dst.getvalue())
         except MPE:
             return ('MPE',)
+        except falcon.HTTPUnsupportedMediaType:
+            if how in ('get_media', 'media_prop'): return ('415',)
+            raise
+        except falcon.MediaMalformedError:
+            if how in ('get_media', 'media_prop'): return ('malformed',)
+            raise
         raise AssertionError(how)
 
     async def part_async(p, how, arg):
@@ -1122,6 +1191,12 @@ def _oracle(ctx):
                 await s.pipe(Dst()); return ('bytes', b''.join(got))
         except MPE:
             return ('MPE',)
+        except falcon.HTTPUnsupportedMediaType:
+            if how in ('get_media', 'media_prop'): return ('415',)
+            raise
+        except falcon.MediaMalformedError:
+            if how in ('get_media', 'media_prop'): return ('malformed',)
+            raise
         raise AssertionError(how)
 
     def consume_sync(form, script, out, catch=True):
@@ -1248,13 +1323,19 @@ def _oracle(ctx):
             if len(g) < 5:
                 return f'part {i}: consuming it ({exp_how[i] if i < len(exp_how) else "?"}) raised something other than MultipartParseError (outcome {got[-1]!r})'
             for k, what in enumerate(('name', 'filename', 'content_type')):
-                if loose_headers:
+                if loose_headers or e[k] is _ANY:
                     if not (g[k] is None or isinstance(g[k], str) or g[k] == ('MPE',)): return f'part {i}: {what} gave {g[k]!r}'
                 elif g[k] != e[k] or type(g[k]) is not type(e[k]):
                     return f'part {i}: {what} = {g[k]!r}, encoded {e[k]!r}'
             if not (isinstance(g[3], str) or g[3] == ('MPE',)): return f'part {i}: secure_filename gave {g[3]!r}'
             if e[4] == ('anytext',):
                 if not (g[4] == ('MPE',) or (g[4][0] == 'text' and (g[4][1] is None or isinstance(g[4][1], str)))): return f'part {i}: get_text gave {g[4]!r}'
+            elif e[4] == ('media-loose',):
+                # get_media() on a part whose media type / parameters are odd: a value, the multipart parse error, 415 (no handler for
+                # that type) or 400 (content is not a document of that type) - anything else has propagated and is reported above
+                if g[4][0] not in ('media', 'MPE', '415', 'malformed'): return f'part {i}: get_media gave {g[4]!r}'
+            elif e[4][0] == 'one-of':
+                if g[4] not in e[4][1]: return f'part {i}: consumed as {exp_how[i] if i < len(exp_how) else "?"}: observed {_short(g[4])}, expected {" or ".join(_short(x) for x in e[4][1])}'
             elif g[4] != e[4]:
                 return f'part {i}: consumed as {exp_how[i] if i < len(exp_how) else "?"}: observed {_short(g[4])}, expected {_short(e[4])}'
         return None
@@ -1266,7 +1347,7 @@ def _oracle(ctx):
     O_COMMA = 'request level: a form whose (legal) boundary contains a comma is served by req.get_media()'
     O_AGREE = 'WSGI and ASGI parsers observe the same on the same body, options and consumption script'
 
-    async def one(kind, body, b, cth, o, script, exp, plan, loose, meta, feed=None):
+    async def one(kind, body, b, cth, o, script, exp, plan, loose, meta, feed=None, oname=None):
         # feed: what the server actually delivers when that is more than the declared Content-Length = len(body)
         cl = len(body)
         pieces = _pieces(plan, body)
@@ -1280,7 +1361,7 @@ def _oracle(ctx):
         ga = await run_async(apath, body, cth, cl, pieces if apath in ('raw', 'reader') else fpieces, cs, o, script)
         case = dict(meta, kind=kind, body=body if len(body) <= 4000 else {'len': len(body), 'head': body[:300], 'sha1': __import__('hashlib').sha1(body).hexdigest()},
                     boundary=b, content_type=cth, options=o, script=script, chunk_plan=plan, reader_chunk_size=cs, delivered_beyond_content_length=None if feed is None else feed[len(body):])
-        name = O_FORM if kind == 'valid' else O_BAD
+        name = oname or (O_FORM if kind == 'valid' else O_BAD)
         # F24: the request-level media handler lookup answers 415 when the (legal, quoted) boundary contains a comma. Only that
         # outcome is reported under O_COMMA; anything else about such a form is judged by the normal oracles.
         def is415(g, path):
@@ -1310,7 +1391,8 @@ def _oracle(ctx):
             if len(p['block']) > o['hdr'] or (o['count'] > 0 and i >= o['count']):
                 return exp + ['MPE']
             how, arg = script[i % len(script)]
-            exp.append([p['name'], p['filename'], p['ct'], None, _expect_obs(how, arg, p['data'], p['ct'], p['charset'], p['obj'], o['buf'])])
+            exp.append([p['name'], p['filename'], p['ct'], None,
+                        p['obs'](how, arg) if 'obs' in p else _expect_obs(how, arg, p['data'], p['ct'], p['charset'], p['obj'], o['buf'])])
         return exp + ['end']
 
     def valid_form(big=True):
@@ -1390,12 +1472,13 @@ def _oracle(ctx):
                         await damaged(body[:i] + bytes([c]) + body[i + 1:], b, cth, [('sub', i, c)], {'exhaustive_edits': True})
         await boundary_param()
 
-    async def damaged(body, b, cth, edits, meta=None, feed=None):
+    async def damaged(body, b, cth, edits, meta=None, feed=None, script=None, oname=None, kind='damaged'):
         o = dict(DEFAULT)
-        if rnd.random() < 0.25: o['count'] = rnd.choice([1, 2])
-        if rnd.random() < 0.25: o['buf'] = rnd.choice([0, 3, 5])
-        if rnd.random() < 0.25: o['hdr'] = rnd.choice([10, 60, 80])
-        script = [s for s in _script(rnd, [], valid=False)]
+        if script is None:
+            if rnd.random() < 0.25: o['count'] = rnd.choice([1, 2])
+            if rnd.random() < 0.25: o['buf'] = rnd.choice([0, 3, 5])
+            if rnd.random() < 0.25: o['hdr'] = rnd.choice([10, 60, 80])
+            script = [s for s in _script(rnd, [], valid=False)]
         ref, status = _ref_split(body, b, o['hdr'], o['count'])
         exp = []
         for i, (block, content) in enumerate(ref):
@@ -1404,7 +1487,7 @@ def _oracle(ctx):
         exp.append('end' if status == 'end' else 'MPE')
         for e in edits: ctx.count('edit_' + e[0])
         if feed is not None: ctx.count('truncated_by_content_length_only')
-        await one('damaged', body, b, cth, o, script, exp, _chunk_plan(rnd, len(body)), True, dict(meta or {}, edits=edits), feed=feed)
+        await one(kind, body, b, cth, o, script, exp, _chunk_plan(rnd, len(body)), True, dict(meta or {}, edits=edits), feed=feed, oname=oname)
 
     async def boundary_param():
         """1..70 characters after stripping trailing blanks; anything else is an invalid Content-Type header (400)"""
@@ -1432,7 +1515,250 @@ def _oracle(ctx):
                            None if good else f'{side}: boundary of {n} chars gave {res}', {'content_type': cth, 'side': side})
                 ctx.seen(('bparam', cth, side), True)
 
-    asyncio.run(main())
+    # ================================================================== section 'headers': the characters of names / filenames
+    # (dimension 7) and the parameter values that are handed to library functions (dimension 9)
+    O_CD = ('Content-Disposition quoted-strings (RFC 9110 5.6.4, RFC 7578 4.2): name and filename come back exactly as encoded - every printable ASCII character '
+            'incl. the escaped quote and backslash, every adjacent pair, both ends - and count, order, content type and content are unaffected')
+    O_F46 = ('known class F46 (a quoted parameter value ending in an escaped backslash that is followed by another parameter): count, order, content type, content and outcome '
+             'are as encoded and name/filename are a str, None or the parse error (their value is not judged)')
+    O_PARAM = ('parameter values handed to library functions (charset of Content-Type and of filename*, media-type parameters: NUL, control, non-ASCII, empty, very long, unknown): '
+               'name/filename/content_type as encoded; get_text/get_data give the value or the multipart parse error (400), get_media also the 415/400 of the part media handlers; never another exception')
+    O_PEDIT = ('single-byte edits inside header parameter values (any byte value): parts and outcome equal the flat-buffer reference; only MultipartParseError (400) '
+               '- from get_media also the 415/400 of the part media handlers - is raised; no hang')
+    OTHERS = ['F', 'f.txt', 'N1', 'x y', 'a;b', 'q"r', 'c:\\d', '', 'n=v', "it's", '100%', '\u017euvis', '";', 'a\\"b']
+    EXTRAS = [('size', '12'), ('x', 'p;q'), ('creation-date', 'Wed, 12 Feb 1997 16:29:51 -0500'), ('y', '"'), ('z', 'a=b'), ('x', ';name="evil"'), ('w', '')]
+    SMALL = [b'', b'v', b'value', b'\r\n-', b'two\r\nlines', b'\x00\xff']
+
+    def hdr_boundary():
+        return rnd.choice([b'b', b'XyZ', b'-', b'0123456789']) if rnd.random() < 0.7 else _boundary(rnd)
+
+    def cd_part(params, name, fname):
+        params = list(params)
+        if rnd.random() < 0.2: params.insert(rnd.randint(0, len(params)), rnd.choice(EXTRAS))
+        cd, f46 = _enc_params(rnd, rnd.choice(['form-data', 'form-data', 'Form-Data']), params)
+        ct = rnd.choice([None, None, 'text/plain', 'application/octet-stream', 'text/plain; charset=utf-8'])
+        lines = [rnd.choice(['Content-Disposition', 'content-disposition']).encode() + b': ' + cd.encode('utf-8')]
+        if ct: lines.append(b'Content-Type: ' + ct.encode())
+        rnd.shuffle(lines)
+        data = rnd.choice(SMALL)
+        if ct and ct.startswith('text/'): data = rnd.choice([b'', b'v', b'two\r\nlines'])
+        return {'name': _ANY if f46 else name, 'filename': _ANY if f46 else fname, 'ct': ct or 'text/plain', 'data': data, 'kind': 'bin', 'obj': None,
+                'charset': 'utf-8', 'block': CRLF.join(lines), 'enc': (name, fname)}, f46
+
+    def placements(s):
+        yield [('name', s)], s, None
+        x = rnd.choice(OTHERS); yield [('filename', x), ('name', s)], s, x
+        x = rnd.choice(OTHERS); yield [('name', s), ('filename', x)], s, x
+        x = rnd.choice(OTHERS); yield [('name', x), ('filename', s)], x, s
+        x = rnd.choice(OTHERS); yield [('filename', s), ('name', x)], x, s
+
+    async def hdr_form(parts, oname, kind, meta):
+        b = hdr_boundary()
+        body = _encode(parts, b, b'', rnd.choice([b'', CRLF, CRLF]))
+        ref, status = _ref_split(body, b, 1 << 30, 0)
+        if status != 'end' or [c for _h, c in ref] != [p['data'] for p in parts]:
+            ctx.count(kind + '_not_boundary_safe_skipped'); return     # (the swept header text contains the delimiter)
+        script = meta.pop('script', None) or _script(rnd, parts)
+        await one(kind, body, b, _content_type_header(rnd, b), DEFAULT, script, expected_valid(parts, DEFAULT, script), _chunk_plan(rnd, len(body)), False,
+                  dict(meta, headers=[p['block'] for p in parts], encoded=[p.get('enc') for p in parts]), oname=oname)
+
+    async def cd_sweep():
+        i, k = ctx.shard
+        mine = _swept_strings()[i::k]
+        if ctx.quick:
+            mine += [(''.join(rnd.choice(_ALPHA20) for _ in range(3)), 'triple_sample') for _ in range(ctx.n(2400, 0))]
+        else:
+            mine += [(a + c + d, 'triple') for a in _ALPHA20 for c in _ALPHA20 for d in _ALPHA20][i::k]
+        mine += [(_long_string(rnd), 'long') for _ in range(ctx.n(1600, 30000))]
+        strict = []; known = []
+
+        async def flush(lst, oname, kind, force=False):
+            while lst and (force or len(lst) >= 6):
+                n = rnd.randint(1, 6); chunk = lst[:n]; del lst[:n]
+                await hdr_form(chunk, oname, kind, {})
+        for s, cls in mine:
+            if '\r' in s or '\n' in s: continue
+            ctx.count('cd_swept_' + cls)
+            for params, name, fname in placements(s):
+                part, f46 = cd_part(params, name, fname)
+                (known if f46 else strict).append(part)
+                ctx.count('cd_part_f46_class_value_not_judged' if f46 else 'cd_part_strict')
+                if '\\";' in part['block'].decode('utf-8', 'replace'): ctx.count('cd_part_with_escaped_quote_then_semicolon')
+            await flush(strict, O_CD, 'cd'); await flush(known, O_F46, 'cdf46')
+        await flush(strict, O_CD, 'cd', True); await flush(known, O_F46, 'cdf46', True)
+
+    # ---------------------------------------------------------------- dimension 9
+    GOOD_CS = ['utf-8', 'UTF-8', 'utf8', 'latin-1', 'iso-8859-1', 'ascii', 'cp1252', 'utf-16-le', 'Utf_8', 'us-ascii', 'koi8-r']
+    ODD_CH = ['\x00', '\x00', '\x00', '\x01', '\x08', '\x0b', '\x1b', '\x1f', '\x7f', ' ', '"', '\\', ';', '=', '%', '*', "'", ',', '/', '.', '\u00e9', '\u20ac', '\ufffd', '\x80']
+    TEXTS = ['', 'hello', 'z\u0105sis \u20ac', 'caf\u00e9', 'a\\', '+AGE-', 'xn--a', 'two\r\nlines', '\\N{', '\\x4']
+
+    def odd_charset():
+        base = rnd.choice(GOOD_CS); j = rnd.randint(0, len(base)); c = rnd.choice(ODD_CH)
+        return rnd.choice([
+            lambda: base[:j] + c + base[j:], lambda: base[:j] + c + base[j + 1:], lambda: c + base, lambda: base + c, lambda: c,
+            lambda: rnd.choice(['', ' ', '\x00', 'utf\x008', 'pecyn', 'hex', 'rot13', 'base64', 'undefined', 'idna', 'punycode', 'unicode_escape', 'raw_unicode_escape',
+                                'utf-7', 'mbcs', 'oem', '../utf-8', 'utf-8/', '%s', '{}', 'utf 8', 'UTF-8 ', 'none', 'None', '0', '-', '_', '.']),
+            lambda: rnd.choice(['x', base, 'u\x00']) * rnd.choice([30, 100, 1000, 4000, 7900]),
+        ])()
+
+    def enc_hdr_bytes(s):
+        """header text -> bytes as a client would send it; non-ASCII characters make it a header falcon cannot decode as ASCII"""
+        try:
+            return s.encode('ascii'), True
+        except UnicodeEncodeError:
+            try:
+                return s.encode(rnd.choice(['utf-8', 'utf-8', 'latin-1'])), False
+            except UnicodeEncodeError:
+                return s.encode('utf-8', 'surrogatepass'), False
+
+    def plain_obs(data):
+        return lambda how, arg: _expect_obs(how, arg, data, 'application/octet-stream', 'utf-8', None, DEFAULT['buf'])
+
+    def param_part(i):
+        """-> part dict with 'obs': one part whose Content-Type (and sometimes filename*) carries generated parameter values"""
+        name = 'f%d' % i; fname = None
+        cdp = [('name', name)]
+        fstar = None
+        if rnd.random() < 0.3:
+            want = rnd.choice(['\u20ac rates.txt', 'na\u00efve.bin', 'plain.txt', 'a b'])
+            r = rnd.random()
+            cs = rnd.choice(['UTF-8', 'utf-8', 'ISO-8859-1', 'utf_8']) if r < 0.4 else odd_charset() if r < 0.9 else rnd.choice(GOOD_CS)
+            lang = rnd.choice(['', '', 'en', 'en-GB', '\x00', 'x' * 300])
+            try:
+                raw = want.encode(cs)
+            except Exception:  # noqa  (not an encoding, or the name is not encodable in it)
+                raw = want.encode('utf-8')
+            fstar = "%s'%s'%s" % (cs, lang, ''.join(chr(c) if (chr(c).isalnum() and c < 128) else '%%%02X' % c for c in raw))
+            good = cs in ('UTF-8', 'utf-8', 'ISO-8859-1', 'utf_8') and lang in ('', 'en') and raw
+            try:
+                fname = raw.decode(cs) if good else _ANY
+            except Exception:  # noqa
+                fname = _ANY
+            if rnd.random() < 0.3: cdp.append(('filename', 'fallback.txt'))
+        cd, f46 = _enc_params(rnd, 'form-data', cdp, quote_all=True)
+        if fstar is not None: cd += '; filename*=' + fstar
+        cdb, cd_ascii = cd.encode('utf-8'), True     # (Content-Disposition is decoded as UTF-8)
+        kind = rnd.choice(['text', 'text', 'text', 'text', 'json', 'urlenc', 'other'])
+        extras = [rnd.choice([('format', 'flowed'), ('x', 'a;b'), ('boundary', 'zz'), ('q', '0.5'), ('name', 'n'), ('v', '"1"')]) for _ in range(rnd.choice([0, 0, 0, 1, 2]))]
+        obj = None
+        if kind == 'text':
+            cs = rnd.choice(GOOD_CS) if rnd.random() < 0.3 else odd_charset()
+            txt = rnd.choice(TEXTS)
+            try:
+                data = txt.encode(cs)
+            except Exception:  # noqa
+                data = txt.encode('utf-8')
+            if rnd.random() < 0.1: data = b'\xff\xfe\x00a'
+            params = list(extras); params.insert(rnd.randint(0, len(params)), ('charset', cs))
+            force_q = any(c in cs for c in '";\\') or cs != cs.strip()
+            ct, ctf46 = _enc_params(rnd, rnd.choice(['text/plain', 'text/plain', 'text/plain', 'text/plain ']), params, quote_all=force_q)
+            ctb, ok = enc_hdr_bytes(ct)
+            dup = sum(1 for a, _v in params if a == 'charset') > 1
+
+            def obs(how, arg, cs=cs, data=data, ok=ok, loose=ctf46 or dup):
+                if how in ('get_text', 'text_prop'):
+                    if not ok: return ('MPE',)
+                    if loose: return ('anytext',)
+                    try:
+                        return ('one-of', [('text', data.decode(cs))])
+                    except Exception:  # noqa  ("the charset must be supported by bytes.decode(); otherwise MultipartParseError")
+                        return ('one-of', [('MPE',)])
+                if how in ('get_media', 'media_prop'): return ('media-loose',)
+                return plain_obs(data)(how, arg)
+        elif kind in ('json', 'urlenc'):
+            import json
+            if kind == 'json':
+                obj = rnd.choice([{'a': 1}, [1, 'x'], 'str', None, {'k': ['v']}]); data = json.dumps(obj).encode(); ess = rnd.choice(['application/json', 'application/json', 'Application/JSON'])
+            else:
+                obj = {'a': '1', 'b': 'two'}; data = b'a=1&b=two'; ess = rnd.choice(['application/x-www-form-urlencoded', 'application/X-WWW-Form-Urlencoded'])
+            r = rnd.random()
+            if r < 0.35:
+                params = rnd.choice([[], [('charset', 'utf-8')], [('charset', 'UTF-8'), ('v', '1')], [('profile', 'http://x/y;z')]]); strict = True
+                ct, ctf46 = _enc_params(rnd, ess, params)
+            elif r < 0.7:
+                cs = odd_charset(); params = list(extras); params.insert(rnd.randint(0, len(params)), (rnd.choice(['charset', 'charset', 'v', 'q']), cs)); strict = False
+                ct, ctf46 = _enc_params(rnd, ess, params, quote_all=any(c in cs for c in '";\\') or cs != cs.strip())
+            else:
+                strict = False; ct = ess + rnd.choice([';', ';;', '; =', '; a', '; q="', '; \x00', ' ;charset', '; charset', '; charset=', ';=;=', '; a=b' * 500, '\x00', ' ', '/x', '; "', '; \\'])
+            ctb, ok = enc_hdr_bytes(ct)
+
+            def obs(how, arg, data=data, ok=ok, obj=obj, strict=strict):
+                if how in ('get_media', 'media_prop'): return ('media', obj) if (strict and ok) else ('media-loose',)
+                if how in ('get_text', 'text_prop'): return ('text', None) if ok else ('MPE',)
+                return plain_obs(data)(how, arg)
+        else:
+            data = rnd.choice(SMALL)
+            ct = rnd.choice(['', ' ', '/', 'a/b/c', '*/*', 'text/*', 'nonsense', 'text', 'application/\x00json', 'x' * 3000 + '/y', 'text/plain\x00', '\x00', 'text/html', 'image/png; a="b',
+                             'TEXT/PLAIN', ' text/plain', 'text/plain;', 'text/plain; charset', 'text/\u00e9', 'multipart/form-data; boundary=b', 'text/plain; charset=utf-8; charset=' + odd_charset().replace(';', '')])
+            ctb, ok = enc_hdr_bytes(ct)
+
+            def obs(how, arg, data=data, ok=ok):
+                if how in ('get_media', 'media_prop'): return ('media-loose',)
+                if how in ('get_text', 'text_prop'): return ('anytext',) if ok else ('MPE',)
+                return plain_obs(data)(how, arg)
+        lines = [b'Content-Disposition: ' + cdb, rnd.choice([b'Content-Type', b'content-type']) + b': ' + ctb]
+        rnd.shuffle(lines)
+        if b'\r' in ctb or b'\n' in ctb or b'\r' in cdb or b'\n' in cdb: return None
+        return {'name': name, 'filename': fname, 'ct': ct if ok else ('MPE',), 'data': data, 'kind': kind, 'obj': obj, 'charset': 'utf-8', 'block': CRLF.join(lines),
+                'obs': obs, 'enc': (name, None if fname is _ANY else fname, ctb)}
+
+    HOWS = ['get_text'] * 7 + ['text_prop'] * 3 + ['get_media'] * 3 + ['media_prop'] + ['get_data'] * 2 + ['data_prop', 'read_all', 'skip', 'read_n', 'peek']
+
+    def param_script(parts):
+        sc = []
+        for p in parts:
+            how = rnd.choice(HOWS)
+            if p['kind'] in ('json', 'urlenc') and rnd.random() < 0.5: how = rnd.choice(['get_media', 'media_prop'])
+            sc.append((how, {'read_n': rnd.choice([0, 1, 5]), 'peek': 2}.get(how)))
+        return sc or [('skip', None)]
+
+    async def param_forms():
+        for _ in range(ctx.n(5000, 60000)):
+            parts = [q for q in (param_part(i) for i in range(rnd.choice([1, 1, 2, 3]))) if q is not None]
+            for p in parts:
+                ctx.count('param_part_' + p['kind'])
+                cb = p['enc'][2]
+                if b'\x00' in cb: ctx.count('param_content_type_with_NUL')
+                if len(cb) > 1000: ctx.count('param_content_type_very_long')
+                if p['ct'] == ('MPE',): ctx.count('param_content_type_non_ascii')
+            await hdr_form(parts, O_PARAM, 'param', {'script': param_script(parts)})
+
+    BYTES_QUICK = sorted(set(range(0x21)) | {0x22, 0x25, 0x27, 0x2a, 0x3b, 0x3d, 0x41, 0x5c, 0x7f, 0x80, 0xc3, 0xe9, 0xff})
+
+    async def param_edits():
+        """every parameter-value position of a small valid form x byte values (all 256 in the thorough tier), as substitution and insertion"""
+        import re
+        for _ in range(ctx.n(4, 16)):
+            b = rnd.choice([b'b', b'XyZ', b'BOUNDARY'])
+            cs = rnd.choice(['utf-8', 'latin-1', 'utf-16-le', 'ascii', 'UTF-8'])
+            blocks = [b'Content-Disposition: form-data; name="f0"\r\nContent-Type: text/plain;' + rnd.choice([b' ', b'']) + b'charset=' + cs.encode(),
+                      b'Content-Disposition: form-data; name="f1"; ' + rnd.choice([b"filename*=UTF-8''%E2%82%AC.txt", b'filename="a.txt"']) + b'\r\nContent-Type: application/json; charset=utf-8']
+            parts = [{'block': blocks[0], 'data': 'Gr\u00fc\u00dfe'.encode(cs, 'replace')}, {'block': blocks[1], 'data': b'{"k": 1}'}]
+            if rnd.random() < 0.5: parts.reverse()
+            body = _encode(parts, b); cth = 'multipart/form-data; boundary=' + b.decode()
+            pos = []
+            for p in parts:
+                off = body.find(p['block'])
+                for m in re.finditer(rb'=[^;\r\n]*', p['block']):
+                    pos += [(off + x, b'charset=' in p['block'][max(0, m.start() - 7):m.start() + 1]) for x in range(m.start(), m.end() + 1)]
+            values = BYTES_QUICK if ctx.quick else range(256)
+            for x, is_cs in pos:
+                for c in values:
+                    for kind in ('sub', 'ins'):
+                        if kind == 'ins' and not is_cs and ctx.quick: continue
+                        if kind == 'sub' and (x >= len(body) or body[x] == c): continue
+                        nb = body[:x] + bytes([c]) + body[x + (kind == 'sub'):]
+                        script = [(rnd.choice(['get_text'] * 5 + ['text_prop'] * 2 + ['get_media', 'media_prop', 'get_data']), None) for _p in range(3)]
+                        ctx.count('param_edit_' + kind + ('_charset_value' if is_cs else '_other_value'))
+                        if c == 0: ctx.count('param_edit_NUL')
+                        await damaged(nb, b, cth, [(kind, x, c)], {'exhaustive_param_edits': True}, script=script, oname=O_PEDIT, kind='pedit')
+
+    async def headers_main():
+        await cd_sweep()
+        await param_forms()
+        await param_edits()
+
+    asyncio.run(main() if section == 'main' else headers_main())
 
 
 def _buffer_oracle(ctx):
@@ -1540,6 +1866,39 @@ def _buffer_oracle(ctx):
     asyncio.run(main())
 
 
+def _ph_corr(ctx):
+    """Ties the model of falcon.util.mediatypes.parse_header (Mt.parseHeader, FalconModel/MediaType.lean - the C11 model, both the fast path
+    and the `_parse_param_old_stdlib` quote-parity splitter) to the real function on what C13 feeds it: Content-Disposition values
+    with quoted names / filenames from the sweep alphabet, Content-Type values with generated charset parameters, and junk."""
+    from falcon.util.mediatypes import parse_header
+    rnd = ctx.rng
+    sess = ctx.session('parse_header(Content-Disposition / Content-Type value of a part) = Mt.parseHeader (key and parameter dict), ASCII header values', 'mpdriver')
+
+    def hexc(t):
+        return t.encode('latin-1').hex() or '-'
+    swept = [s for s, _c in _swept_strings() if s.isascii()]
+    for _ in range(ctx.n(6000, 80000)):
+        r = rnd.random()
+        if r < 0.45:
+            s = rnd.choice(swept) if rnd.random() < 0.5 else ''.join(rnd.choice(_SPECIALS + 'azN0.-/:(&\t') for _c in range(rnd.randint(0, 6)))
+            o = rnd.choice(['F', 'x y', 'a;b', 'q"r', 'c:\\d', ''])
+            params = rnd.choice([[('name', s)], [('filename', o), ('name', s)], [('name', s), ('filename', o)], [('name', o), ('filename', s)], [('filename', s), ('name', o)]])
+            line, _f = _enc_params(rnd, 'form-data', params); kind = 'content_disposition'
+        elif r < 0.7:
+            cs = ''.join(rnd.choice(['utf-8', 'latin-1', '\x00', '\x1f', '"', '\\', ';', '=', ' ', 'x', '\x7f', '\x0b']) for _c in range(rnd.randint(0, 3)))
+            params = [('charset', cs)] + ([('format', 'flowed')] if rnd.random() < 0.3 else [])
+            rnd.shuffle(params)
+            line, _f = _enc_params(rnd, rnd.choice(['text/plain', 'Text/Plain ', 'application/json']), params, quote_all=any(c in cs for c in '";\\') or cs != cs.strip()); kind = 'content_type'
+        else:
+            line = ''.join(rnd.choice(['"', '\\', ';', '=', ' ', 'a', 'B', 'name', '\\"', '";', '\t', '\x00', '\x1c', ',']) for _c in range(rnd.randint(0, 12))); kind = 'junk'
+        key, pd = parse_header(line)
+        sess.case({'header_value': line, 'kind': kind})
+        sess.op('ph ' + hexc(line), hexc(key) + ' ' + (';'.join(sorted(hexc(k) + '=' + hexc(v) for k, v in pd.items())) or '-'))
+        ctx.count('ph_' + kind); ctx.count('ph_path_' + ('quote_aware' if ('"' in line or '\\' in line) else 'fast'))
+        ctx.seen(('ph', line), bool(pd))
+    sess.finish()
+
+
 def _short(x, n=160):
     s = repr(x)
     return s if len(s) <= n else s[:n] + f'...({len(s)} chars)'
@@ -1555,6 +1914,6 @@ LEVEL_TEXT = ('Machine-checked (Lean 4): (i) on the flat parser Mf (MultipartFor
               'Mp.next is tied to the real sync parser (headers, every byte of every part-stream operation, error kinds, sizes asked of the raw stream) and to the real async parser (observable outputs), Ma.next over the transcription of falcon/asgi/reader.py (nested delimit reader, tell()/eof) to the real async parser, '
               'Mf.encodeForm to the harness reference encoder (byte for byte) and Mf.parseAll to the real sync and async parsers (parts, contents, outcome on valid/edited/truncated/messy bodies) by differential correspondences on every run. An independent oracle (reference encoder and flat-buffer splitter written from the statement) '
               'decides parse/encode round trips, consumption and chunking independence, the three limits at their thresholds, damaged bodies and WSGI/ASGI agreement through the real handler, Request and App.')
-LEVEL_NOTE = ('PARTIAL: the BodyPart accessors other than get_data (name/filename/RFC 5987/content_type, get_text/get_media decoding) are oracle-only; chunk sizes below the delimiter length (ValueError) are correspondence-only; '
+LEVEL_NOTE = ('PARTIAL: the BodyPart accessors other than get_data (name/filename/RFC 5987/content_type, get_text/get_media decoding) are oracle-only (parse_header underneath them is tied to its Lean model Mt.parseHeader by a correspondence, no round-trip theorem); chunk sizes below the delimiter length (ValueError) are correspondence-only; '
               'model = code is a differential correspondence. Trusted: Lean kernel + standard axioms, the harness, the reference encoder/splitter.')
 TECHNIQUE = 'Lean 4: round-trip/limit/termination proofs on a flat parser + refinement bridge from the parser model over the buffered reader (all chunkings, all consumption histories) + async parse loop over a lawful reader interface (refinement, sync/async agreement) + differential correspondences of both models vs. real sync and async parsers + reference-encoder oracle'
